@@ -580,14 +580,20 @@ Definition restart_name (i : inst) : str := sname h (s_hashws st) i ++ rst_lit (
 Definition out_name (i : inst) (pid : str) : str := sname h (s_hashws st) i ++ out_l1 ++ pid ++ out_l2.
 Definition err_name (i : inst) (pid : str) : str := sname h (s_hashws st) i ++ err_l1 ++ pid ++ err_l2.
 
+Lemma fill_2 i pid a : fill h st i pid [TName; TLit a] = sname h (s_hashws st) i ++ a.
+Proof. unfold fill. simpl. rewrite app_nil_r. reflexivity. Qed.
+Lemma fill_4 i pid a b :
+  fill h st i pid [TName; TLit a; TPid; TLit b] = sname h (s_hashws st) i ++ a ++ pid ++ b.
+Proof. unfold fill. simpl. rewrite app_nil_r. reflexivity. Qed.
+
 Lemma fill_script i : fill h st i [] (script_tmpl (s_adapter st)) = script_name i.
-Proof. rewrite script_shape. unfold fill, script_name. simpl. rewrite app_nil_r. reflexivity. Qed.
+Proof. rewrite script_shape. apply fill_2. Qed.
 Lemma fill_restart i : fill h st i [] (restart_tmpl (s_adapter st)) = restart_name i.
-Proof. rewrite restart_shape. unfold fill, restart_name. simpl. rewrite app_nil_r. reflexivity. Qed.
+Proof. rewrite restart_shape. apply fill_2. Qed.
 Lemma fill_out i pid : fill h st i pid out_tmpl = out_name i pid.
-Proof. rewrite out_shape. unfold fill, out_name. simpl. rewrite app_nil_r. reflexivity. Qed.
+Proof. rewrite out_shape. apply fill_4. Qed.
 Lemma fill_err i pid : fill h st i pid err_tmpl = err_name i pid.
-Proof. rewrite err_shape. unfold fill, err_name. simpl. rewrite app_nil_r. reflexivity. Qed.
+Proof. rewrite err_shape. apply fill_4. Qed.
 
 (** The files of one instance as (directory, file name) pairs. *)
 Definition mfiles (i : inst) : list (str * str) :=
@@ -691,8 +697,7 @@ Lemma mfiles_names : map snd (mfiles i) = map (app (sname h (s_hashws st) i)) ta
 Proof.
   unfold mfiles, tails. simpl. f_equal. rewrite !map_app. f_equal.
   - destruct (i_restart i); reflexivity.
-  - rewrite !map_flat_map. induction (i_pids i) as [|p l IH]; simpl; [reflexivity |].
-    rewrite IH. reflexivity.
+  - rewrite !map_flat_map. apply flat_map_ext. intro p. reflexivity.
 Qed.
 
 Lemma out_tail_inj p q : out_l1 ++ p ++ out_l2 = out_l1 ++ q ++ out_l2 -> p = q.
@@ -735,8 +740,8 @@ Proof.
     assert (Hx' : x = scr_lit (s_adapter st) \/ x = rst_lit (s_adapter st)).
     { destruct Hx as [E | Hx]; [left; auto |]. destruct (i_restart i); [| destruct Hx].
       destruct Hx as [E | []]. right. auto. }
-    destruct K as [E | [E | []]]; destruct Hx' as [E' | E']; subst x;
-      (eapply not_outlike_neq; [| exact Hp1 | exact Hp2 | exact (eq_sym E)]); assumption.
+    destruct K as [E | [E | []]]; destruct Hx' as [E' | E']; rewrite E' in E; symmetry in E;
+      revert E; apply not_outlike_neq; assumption.
 Qed.
 
 Lemma mfiles_names_nodup : NoDup (map snd (mfiles i)).
@@ -747,3 +752,350 @@ Proof.
 Qed.
 
 End Names.
+
+(* ------------------------------------------------------------------------ *)
+(** * Part E -- the monitor holds of the model under hygiene *)
+
+Lemma pairwise_intro {A B} (f : A -> A -> bool) (key : A -> B) (l : list A) :
+  NoDup (map key l) ->
+  (forall x y, In x l -> In y l -> key x <> key y -> f x y = true) ->
+  pairwise f l = true.
+Proof.
+  induction l as [|a l IH]; intros Hn Hf; simpl; [reflexivity |].
+  simpl in Hn. inversion Hn; subst. apply andb_true_iff. split.
+  - apply forallb_forall. intros y Hy.
+    assert (Hk : key a <> key y).
+    { intro E. apply H1. rewrite E. apply in_map. exact Hy. }
+    apply andb_true_iff. split; apply Hf; auto; try (left; reflexivity); right; exact Hy.
+  - apply IH; [assumption |]. intros x y Hx Hy. apply Hf; right; assumption.
+Qed.
+
+Lemma pairwise_elim {A} (f : A -> A -> bool) : forall l,
+  pairwise f l = true ->
+  forall x y, In x l -> In y l -> x = y \/ (f x y = true /\ f y x = true).
+Proof.
+  induction l as [|a l IH]; intros H x y Hx Hy; [destruct Hx |].
+  simpl in H. apply andb_true_iff in H. destruct H as [H1 H2].
+  rewrite forallb_forall in H1.
+  destruct Hx as [Hx | Hx]; destruct Hy as [Hy | Hy]; subst.
+  - left. reflexivity.
+  - right. specialize (H1 y Hy). apply andb_true_iff in H1. exact H1.
+  - right. specialize (H1 x Hx). apply andb_true_iff in H1. tauto.
+  - apply IH; assumption.
+Qed.
+
+Lemma forallb_map {A B} (f : B -> bool) (g : A -> B) (l : list A) :
+  forallb f (map g l) = forallb (fun a => f (g a)) l.
+Proof. induction l as [|a l IH]; simpl; [reflexivity |]. rewrite IH. reflexivity. Qed.
+
+Lemma pairwise_map {A B} (f : B -> B -> bool) (g : A -> B) : forall l,
+  pairwise f (map g l) = pairwise (fun a b => f (g a) (g b)) l.
+Proof.
+  induction l as [|a l IH]; simpl; [reflexivity |]. rewrite IH, forallb_map. reflexivity.
+Qed.
+
+Lemma pairwise_neq_nodup (l : list np) : NoDup l -> pairwise np_neqb l = true.
+Proof.
+  intro H. apply (pairwise_intro _ (fun x => x)); [rewrite map_id; exact H |].
+  intros x y _ _ K. apply np_neqb_iff. exact K.
+Qed.
+
+Lemma hex_facts c : is_hex c = true -> c <> DOT /\ c <> SLASH.
+Proof. intro H. split; intro E; subst; vm_compute in H; discriminate. Qed.
+
+Lemma digest_okcomp x : is_digest x -> okcomp x.
+Proof.
+  intros [Hne Hx]. rewrite Forall_forall in Hx. split.
+  - intro K. apply Hx in K. apply hex_facts in K. destruct K as [_ K]. congruence.
+  - destruct x as [|c x]; [congruence |].
+    destruct (hex_facts c (Hx c (or_introl eq_refl))) as [Hc _].
+    repeat split; try discriminate; intro E; inversion E; congruence.
+Qed.
+
+(** The workspace shapes of the regenerated data are non-empty lists. *)
+Lemma ws_key_nonempty h hw i : ws_key h hw i <> [].
+Proof.
+  unfold ws_key, ws_args, ws_shape.
+  destruct (i_combo i); [destruct hw |]; discriminate.
+Qed.
+
+(** Hygiene in the form the proofs use: the sanitised workspace keys of
+    distinct instances are prefix-incomparable (this is implied both by the
+    injectivity form [H10] and by the boolean form [h10b]). *)
+Record G10 (h : str -> str) (st : study) : Prop := mkG10 {
+  G_names : NoDup (map iname (s_insts st));
+  G_sep : forall i j, In i (s_insts st) -> In j (s_insts st) -> iname i <> iname j ->
+          ~ is_prefix (ws_key h (s_hashws st) i) (ws_key h (s_hashws st) j);
+  G_good : forall i, In i (s_insts st) -> Forall good (ws_key h (s_hashws st) i);
+  G_noslash : forall i, In i (s_insts st) -> ~ In SLASH (sname h (s_hashws st) i);
+  G_tmp : s_tmp st <> [] ->
+          (forall i, In i (s_insts st) -> is_digest (h (iname i))) /\
+          (forall i j, In i (s_insts st) -> In j (s_insts st) ->
+                       h (iname i) = h (iname j) -> iname i = iname j) /\
+          inside_eq (s_root st) (s_tmp st) = false /\ inside_eq (s_tmp st) (s_root st) = false;
+  G_pids : forall i, In i (s_insts st) -> NoDup (i_pids i) /\ Forall is_pid (i_pids i)
+}.
+
+Lemma ws_key_first h hw i : exists r, ws_key h hw i = sanitize (i_step i) :: r.
+Proof.
+  unfold ws_key, ws_args, ws_shape.
+  destruct (i_combo i); [destruct hw |]; simpl; eexists; reflexivity.
+Qed.
+
+Lemma H10_G10 h st : H10 h st -> G10 h st.
+Proof.
+  intros [Hk Hn Hs Hc Hg Hsl Ht Hp]. constructor; try assumption.
+  intros i j Hi Hj Hne [r Hr].
+  assert (Hst : i_step i = i_step j).
+  { apply Hs; try assumption.
+    destruct (ws_key_first h (s_hashws st) i) as [ri Ei].
+    destruct (ws_key_first h (s_hashws st) j) as [rj Ej].
+    rewrite Ei, Ej in Hr. simpl in Hr. inversion Hr. reflexivity. }
+  pose proof (Hk i j Hi Hj Hst) as Hkind.
+  unfold ws_key, ws_args, ws_shape in Hr.
+  apply Hne. unfold iname.
+  destruct (i_combo i) as [ci|] eqn:Ei; destruct (i_combo j) as [cj|] eqn:Ej.
+  - assert (E : ci = cj).
+    { apply (Hc i j ci cj Hi Hj Hst Ei Ej). unfold wkey.
+      destruct (s_hashws st); simpl in Hr; rewrite ?Ei, ?Ej in Hr; simpl in Hr;
+        inversion Hr; reflexivity. }
+    subst. rewrite Hst. reflexivity.
+  - exfalso. destruct Hkind as [_ K]. specialize (K eq_refl). discriminate.
+  - exfalso. destruct Hkind as [K _]. specialize (K eq_refl). discriminate.
+  - exact Hst.
+Qed.
+
+Section Model.
+Variable h : str -> str.
+Variable st : study.
+Hypothesis G : G10 h st.
+
+Let hw := s_hashws st.
+Let NR := npath (s_root st).
+Let NT := npath (s_tmp st).
+
+Definition wsn (i : inst) : np := ext (npath (s_root st)) (ws_key h (s_hashws st) i).
+Definition sdn (i : inst) : np :=
+  if is_empty (s_tmp st) then wsn i else ext (npath (s_tmp st)) [h (iname i)].
+
+Lemma ws_key_ok i : In i (s_insts st) -> Forall okcomp (ws_key h (s_hashws st) i).
+Proof.
+  intro Hi. pose proof (G_good h st G i Hi) as Hg.
+  rewrite Forall_forall in *. intros c Hc. split; [| apply Hg; exact Hc].
+  unfold ws_key in Hc. apply in_map_iff in Hc. destruct Hc as [a [Ea _]]. subst.
+  apply sanitize_noslash.
+Qed.
+
+Lemma npath_workspace i : In i (s_insts st) -> npath (workspace h st i) = wsn i.
+Proof.
+  intro Hi. unfold workspace, make_safe_path.
+  change (map sanitize (ws_args h (s_hashws st) i)) with (ws_key h (s_hashws st) i).
+  rewrite npath_join by (apply ws_key_ok; exact Hi). reflexivity.
+Qed.
+
+Lemma npath_scr_dir i : In i (s_insts st) -> npath (scr_dir h st i) = sdn i.
+Proof.
+  intro Hi. unfold scr_dir, sdn. destruct (is_empty (s_tmp st)) eqn:E.
+  - apply npath_workspace. exact Hi.
+  - apply is_empty_false in E. destruct (G_tmp h st G E) as [Hd _].
+    destruct (digest_okcomp _ (Hd i Hi)) as [K1 K2].
+    rewrite npath_join2 by assumption. reflexivity.
+Qed.
+
+Lemma workspace_inside i : In i (s_insts st) -> inside (s_root st) (workspace h st i) = true.
+Proof.
+  intro Hi. unfold inside. rewrite npath_workspace by exact Hi.
+  apply np_inside_ext. apply ws_key_nonempty.
+Qed.
+
+(** every file of an instance is <directory>/<name> with a good slash-free name,
+    the directory being the workspace or the script directory *)
+Lemma mfiles_dir i dn :
+  In i (s_insts st) -> In dn (mfiles h st i) ->
+  okcomp (snd dn) /\ (npath (fst dn) = wsn i \/ npath (fst dn) = sdn i).
+Proof.
+  intros Hi Hdn. split.
+  - apply (mfiles_names_ok h st i); [apply (G_noslash h st G); exact Hi
+                                     | apply (G_pids h st G); exact Hi | exact Hdn].
+  - unfold mfiles in Hdn. destruct Hdn as [E | K].
+    + subst. right. apply npath_scr_dir. exact Hi.
+    + apply in_app_or in K. destruct K as [K | K].
+      * destruct (i_restart i); [| destruct K]. destruct K as [E | []]. subst.
+        right. apply npath_scr_dir. exact Hi.
+      * apply in_flat_map in K. destruct K as [p [_ [E | [E | []]]]]; subst; left;
+          apply npath_workspace; exact Hi.
+Qed.
+
+Lemma npath_jn i dn :
+  In i (s_insts st) -> In dn (mfiles h st i) -> npath (jn dn) = ext (npath (fst dn)) [snd dn].
+Proof.
+  intros Hi Hdn. destruct (mfiles_dir i dn Hi Hdn) as [[K1 K2] _].
+  unfold jn. rewrite npath_join2 by assumption. reflexivity.
+Qed.
+
+Lemma tmp_unrelated : s_tmp st <> [] -> unrelated (npath (s_root st)) (npath (s_tmp st)).
+Proof.
+  intro E. destruct (G_tmp h st G E) as [_ [_ [K1 K2]]]. unfold inside_eq in *.
+  apply np_inside_eq_false in K1, K2. split; assumption.
+Qed.
+
+(** the directories of distinct instances are pairwise unrelated *)
+Lemma wsn_wsn i j : In i (s_insts st) -> In j (s_insts st) -> iname i <> iname j ->
+  unrelated (wsn i) (wsn j).
+Proof.
+  intros Hi Hj Hne. apply unrelated_ext; apply (G_sep h st G); auto.
+Qed.
+
+Lemma sdn_sdn i j : In i (s_insts st) -> In j (s_insts st) -> iname i <> iname j ->
+  unrelated (sdn i) (sdn j).
+Proof.
+  intros Hi Hj Hne. unfold sdn. destruct (is_empty (s_tmp st)) eqn:E.
+  - apply wsn_wsn; assumption.
+  - apply is_empty_false in E. destruct (G_tmp h st G E) as [_ [Hinj _]].
+    apply unrelated_ext; intros [r Hr]; simpl in Hr; inversion Hr; apply Hne.
+    + apply Hinj; auto.
+    + symmetry. apply Hinj; auto.
+Qed.
+
+Lemma wsn_sdn i j : In i (s_insts st) -> In j (s_insts st) -> iname i <> iname j ->
+  unrelated (wsn i) (sdn j).
+Proof.
+  intros Hi Hj Hne. unfold sdn. destruct (is_empty (s_tmp st)) eqn:E.
+  - apply wsn_wsn; assumption.
+  - apply is_empty_false in E.
+    eapply unrelated_below; [exact (tmp_unrelated E) | apply np_le_ext | apply np_le_ext].
+Qed.
+
+Lemma dirs_unrelated i j di dj :
+  In i (s_insts st) -> In j (s_insts st) -> iname i <> iname j ->
+  (di = wsn i \/ di = sdn i) -> (dj = wsn j \/ dj = sdn j) -> unrelated di dj.
+Proof.
+  intros Hi Hj Hne [Ei | Ei] [Ej | Ej]; subst.
+  - apply wsn_wsn; assumption.
+  - apply wsn_sdn; assumption.
+  - apply unrelated_sym. apply wsn_sdn; auto.
+  - apply sdn_sdn; assumption.
+Qed.
+
+(** files of distinct instances: normal forms unrelated *)
+Lemma files_unrelated i j f g :
+  In i (s_insts st) -> In j (s_insts st) -> iname i <> iname j ->
+  In f (mfiles h st i) -> In g (mfiles h st j) ->
+  unrelated (npath (jn f)) (npath (jn g)).
+Proof.
+  intros Hi Hj Hne Hf Hg.
+  rewrite (npath_jn i f Hi Hf), (npath_jn j g Hj Hg).
+  destruct (mfiles_dir i f Hi Hf) as [_ Df]. destruct (mfiles_dir j g Hj Hg) as [_ Dg].
+  eapply unrelated_below; [exact (dirs_unrelated i j _ _ Hi Hj Hne Df Dg) | apply np_le_ext | apply np_le_ext].
+Qed.
+
+Lemma ws_file_unrelated i j g :
+  In i (s_insts st) -> In j (s_insts st) -> iname i <> iname j ->
+  In g (mfiles h st j) -> unrelated (wsn i) (npath (jn g)).
+Proof.
+  intros Hi Hj Hne Hg. rewrite (npath_jn j g Hj Hg).
+  destruct (mfiles_dir j g Hj Hg) as [_ Dg].
+  eapply unrelated_below; [exact (dirs_unrelated i j _ _ Hi Hj Hne (or_introl eq_refl) Dg)
+                          | apply np_le_refl | apply np_le_ext].
+Qed.
+
+(** files of one instance: pairwise distinct normal forms *)
+Lemma files_nodup i : In i (s_insts st) -> NoDup (map npath (map jn (mfiles h st i))).
+Proof.
+  intro Hi. rewrite map_map. apply (NoDup_map_by _ snd).
+  - apply mfiles_names_nodup; [apply (G_noslash h st G) | apply (G_pids h st G)]; exact Hi.
+  - intros x y Hx Hy E. rewrite (npath_jn i x Hi Hx), (npath_jn i y Hi Hy) in E.
+    unfold ext in E. inversion E as [[E1 E2]]. apply app_inj_tail in E2. apply E2.
+Qed.
+
+(* ---- the five conjuncts of the monitor ---- *)
+
+Lemma model_ok_inside : ok_inside (model_obs h st) = true.
+Proof.
+  unfold ok_inside, model_obs. simpl. rewrite forallb_map. apply forallb_forall.
+  intros i Hi. simpl. apply workspace_inside. exact Hi.
+Qed.
+
+Lemma model_ok_complete : ok_complete (model_obs h st) = true.
+Proof.
+  unfold ok_complete, model_obs. simpl. rewrite forallb_map. apply forallb_forall.
+  intros i Hi. reflexivity.
+Qed.
+
+Lemma script_file_inside i n :
+  In i (s_insts st) -> okcomp n ->
+  inside (if is_empty (s_tmp st) then workspace h st i else s_tmp st)
+         (join2 (scr_dir h st i) n) = true.
+Proof.
+  intros Hi [K1 K2]. unfold inside. rewrite npath_join2 by assumption.
+  rewrite (npath_scr_dir i Hi). unfold sdn.
+  destruct (is_empty (s_tmp st)) eqn:E.
+  - rewrite (npath_workspace i Hi). apply (np_inside_ext (wsn i) [n]). discriminate.
+  - change (np_inside (npath (s_tmp st)) (ext (ext (npath (s_tmp st)) [h (iname i)]) [n]) = true).
+    rewrite ext_ext. apply np_inside_ext. discriminate.
+Qed.
+
+Lemma out_file_inside i n :
+  In i (s_insts st) -> okcomp n ->
+  inside (workspace h st i) (join2 (workspace h st i) n) = true.
+Proof.
+  intros Hi [K1 K2]. unfold inside. rewrite npath_join2 by assumption.
+  apply (np_inside_ext (npath (workspace h st i)) [n]). discriminate.
+Qed.
+
+Lemma model_ok_files_inside : ok_files_inside (model_obs h st) = true.
+Proof.
+  unfold ok_files_inside. unfold model_obs at 1. cbn [o_insts o_tmp].
+  rewrite forallb_map. apply forallb_forall. intros i Hi.
+  pose proof (G_noslash h st G i Hi) as Hns. pose proof (G_pids h st G i Hi) as Hp.
+  apply andb_true_iff. split.
+  - rewrite o_scripts_model. change (o_ws (model_iobs h st i)) with (workspace h st i).
+    apply forallb_forall. intros f [E | Hf].
+    + subst. apply script_file_inside; [exact Hi | apply script_name_ok; assumption].
+    + destruct (i_restart i); [| destruct Hf]. destruct Hf as [E | []]. subst.
+      apply script_file_inside; [exact Hi | apply restart_name_ok; assumption].
+  - rewrite o_outs_model. change (o_ws (model_iobs h st i)) with (workspace h st i).
+    apply forallb_forall. intros f Hf. apply in_flat_map in Hf.
+    destruct Hf as [p [Hp1 [E | [E | []]]]]; subst; apply out_file_inside; try exact Hi.
+    + apply (out_name_ok h st i Hns Hp p Hp1).
+    + apply (err_name_ok h st i Hns Hp p Hp1).
+Qed.
+
+Lemma model_ok_files_distinct : ok_files_distinct (model_obs h st) = true.
+Proof.
+  unfold ok_files_distinct. unfold model_obs. cbn [o_insts].
+  apply andb_true_iff. split.
+  - rewrite forallb_map. apply forallb_forall. intros i Hi.
+    rewrite o_files_model. apply pairwise_neq_nodup. apply files_nodup. exact Hi.
+  - rewrite pairwise_map. apply (pairwise_intro _ iname); [exact (G_names h st G) |].
+    intros i j Hi Hj Hne. rewrite !o_files_model.
+    apply forallb_forall. intros f Hf. apply forallb_forall. intros g Hg.
+    apply in_map_iff in Hf. destruct Hf as [f' [Ef Hf]].
+    apply in_map_iff in Hg. destruct Hg as [g' [Eg Hg]]. subst.
+    apply np_neqb_iff. apply unrelated_neq. apply (files_unrelated i j); assumption.
+Qed.
+
+Lemma model_ok_separate : ok_separate (model_obs h st) = true.
+Proof.
+  unfold ok_separate. unfold model_obs. cbn [o_insts].
+  rewrite pairwise_map. apply (pairwise_intro _ iname); [exact (G_names h st G) |].
+  intros i j Hi Hj Hne. rewrite o_files_model.
+  change (o_ws (model_iobs h st i)) with (workspace h st i).
+  change (o_ws (model_iobs h st j)) with (workspace h st j).
+  apply andb_true_iff. split.
+  - apply negb_true_iff. unfold inside_eq. apply np_inside_eq_false.
+    rewrite (npath_workspace i Hi), (npath_workspace j Hj).
+    apply (wsn_wsn i j Hi Hj Hne).
+  - apply forallb_forall. intros g Hg. apply in_map_iff in Hg. destruct Hg as [g' [Eg Hg]]. subst.
+    apply negb_true_iff. unfold inside_eq. apply np_inside_eq_false.
+    rewrite (npath_workspace i Hi). apply (ws_file_unrelated i j g' Hi Hj Hne Hg).
+Qed.
+
+Theorem model_C10_ok : C10_ok (model_obs h st) = true.
+Proof.
+  unfold C10_ok.
+  rewrite model_ok_inside, model_ok_complete, model_ok_files_inside,
+          model_ok_files_distinct, model_ok_separate. reflexivity.
+Qed.
+
+End Model.
